@@ -399,3 +399,33 @@ package generator
 //@ func (*schemaGenerator).generateDeclaredType
 //@   props C09 C05 C06 C17
 //@   calls-ordered defaultValidator before structFieldValidators
+
+// ---- which JSON type a schema node has (determineTypeName) -------------------
+// One listed type: that type. Two listed types of which exactly one is "null":
+// the other one, nullable. Otherwise (two non-null types, three or more): no
+// single type can be chosen and the node must be treated as untyped ("null"
+// result = interface{} with no validation), never as one of the listed types:
+// choosing one would reject valid documents of the other (C02/C03).
+// No listed type: the branches of anyOf (else allOf) decide if they all list the
+// same types; otherwise untyped.
+//@ spec is_null(s) = s == "null"
+//@ func (*schemaGenerator).determineTypeName
+//@   props C03 C11 C10 C02
+//@   option inline (*schemaGenerator).determineTypeName
+//@   option shape-zero t.
+//@   shape g = sgen()
+//@   shape t = new
+//@   shape t.Type = strs() | strs(string) | strs(null) | strs(string,null) | strs(null,integer) | strs(string,integer) | strs(null,null) | strs(string,integer,null)
+//@   shape t.AnyOf = types() | types(a:object) | types(a:object;b:object) | types(a:object;b:string) | types(a:string,null;b:string,null) | types(a:string;b:string;c:integer)
+//@   shape t.AllOf = types() | types(a:object;b:object) | types(a:object;b:array)
+//@   assigns nothing
+//@   ensures [C03,C02] single: len(t.Type) == 1 ==> result0 == t.Type[0] && !result1
+//@   ensures [C03,C02] nullable-pair: len(t.Type) == 2 && (is_null(t.Type[0]) != is_null(t.Type[1])) ==> result1 && result0 == (is_null(t.Type[0]) ? t.Type[1] : t.Type[0])
+//@   ensures [C03,C02,C10] two-non-null-is-untyped: len(t.Type) == 2 && !is_null(t.Type[0]) && !is_null(t.Type[1]) ==> result0 == "null" && !result1
+//@   ensures [C03,C02] three-or-more-is-untyped: len(t.Type) >= 3 ==> result0 == "null" && !result1
+//@   ensures [C11,C03] untyped-leaf: len(t.Type) == 0 && len(t.AnyOf) == 0 && len(t.AllOf) == 0 ==> result0 == "null" && !result1
+//@   ensures [C11] anyof-agreeing-branches: len(t.Type) == 0 && len(t.AnyOf) >= 1 ==> result0 == (branches_agree(t.AnyOf) ? first_branch_type(t.AnyOf) : "null")
+//@   ensures [C11] allof-agreeing-branches: len(t.Type) == 0 && len(t.AnyOf) == 0 && len(t.AllOf) >= 1 ==> result0 == (branches_agree(t.AllOf) ? first_branch_type(t.AllOf) : "null")
+
+//@ func (*TypeList).Equals@in-generator
+//@   props C11
